@@ -120,8 +120,8 @@ prop("C11",
 
 
 prop("C05",
-     quick=[rapid("TestC05", 50000, shards=4, mem_gb=6), plain("TestC05Scaling", shards=4, mem_gb=6), plain("TestC05NonFinite", mem_gb=6)],
-     thorough=[rapid("TestC05", 400000, shards=16, mem_gb=6), plain("TestC05Scaling", shards=4, mem_gb=6), plain("TestC05NonFinite", mem_gb=6),
+     quick=[rapid("TestC05", 50000, shards=4, mem_gb=6), plain("TestC05Scaling", shards=4, mem_gb=6), plain("TestC05NonFinite", mem_gb=6), plain("TestC05Operands", mem_gb=6)],
+     thorough=[rapid("TestC05", 400000, shards=16, mem_gb=6), plain("TestC05Scaling", shards=4, mem_gb=6), plain("TestC05NonFinite", mem_gb=6), plain("TestC05Operands", mem_gb=6),
                fuzz("FuzzC05", "120s", mem_gb=16, wall_timeout=900),
                fuzz("FuzzC05", "120s", env={"VERIF_FUZZ_EMPTY_CORPUS": 1}, mem_gb=16, wall_timeout=900)],
      rule="rapid: expressions as byte strings (random bytes incl. invalid UTF-8 and NUL; token soup with hostile lexemes such as U+0080 after an identifier, extreme integers, unterminated delimiters; grammar sentences and their mutants; truncations/splices; deep nestings of every bracket/prefix kind up to 64 KiB; documents nested up to 3000 levels matched by equally deep expressions; extreme integers in every index/slice slot; all-function document-aware expressions with 30% ill-typed choices; large flat documents) x G-doc documents. Oracle inside the target: recover() around Compile, MustCompile, Search (both forms) and SyntaxError rendering; 20 s watchdog per case; allocation envelope 2048 x (|expr|+|doc|+|result|) + 32 x |expr| x (|doc|+|result|) + 16 MiB for inputs > 4 KiB; and the semantic oracle: lexable texts must be accepted iff grammatical (reference Pratt parser = CFG) and grammatical ones must evaluate like the reference model. Plus a dose-response check: 60 input families at size k and 8k, thread CPU time may grow at most 24x (judged only above 1 s of CPU). Thorough adds native coverage-guided fuzzing (go test -fuzz) of the same target, once seeded with the repository's fuzz corpus + hostile constants and once with an empty corpus. Non-trivial: the input lexes completely or belongs to a hostile class; classes: lex-error, parse-error, evaluated-ok, evaluated-error, deep-nesting, extreme-integer, large-doc, out-of-domain (invalid UTF-8 / integers beyond int64).",
